@@ -127,6 +127,11 @@ impl Case {
                         let dom = |p: [f32; 3]| -> bool { p.iter().all(|x| x.is_finite() && *x >= 0.0 && *x <= 1.0) };
                         correlate_px(&mut px, *seed, Some(&fb), &dom);
                     }
+                    if seed % 4 == 1 {
+                        let fb = |p: [f32; 3]| -> Option<[f32; 3]> { LinearRgb::new(vec![p], 1, 1).ok().map(|l| Hsl::from(l).data()[0]) };
+                        let dom = |p: [f32; 3]| -> bool { p.iter().all(|x| x.is_finite() && *x >= 0.0 && *x <= 1.0) };
+                        correlate_rows(&mut px, self.w, self.h, *seed, &fb, &dom);
+                    }
                     px
                 } else {
                     expand_hsl_anchor(*seed, self.w * self.h)
